@@ -31,7 +31,9 @@ def _sized(kind, need, slack, k):
     hi = need * 2304 - over - 1
     n = max(lo, hi - slack) if slack >= 0 else lo
     n = max(lo, min(hi, n))
-    return dict(name="F%d" % (k % 1000), ext="DAT", kind=kind, ftype={"ml": 2, "basic": 0, "ascii": 1}[kind],
+    # mostly plain names; a few as they come off a tape whose name field is NUL padded (the tool stores NUL as blank)
+    name = {7: "AB\0\0\0\0\0\0", 8: "\0" * 8, 9: "\0X%d" % (k % 50)}.get(k % 10, "F%d" % (k % 1000))
+    return dict(name=name, ext="DAT", kind=kind, ftype={"ml": 2, "basic": 0, "ascii": 1}[kind],
                 dtype=0xFF if kind == "ascii" else 0, load=0x2000, exec=0x2001, data=dict(n=n, k=k, mode=2, head="", tail=""))
 
 
